@@ -186,8 +186,16 @@ def genOp (j : Json) : R Json := do
     if (fldBool j "dump").toOption == some true then return obj [("text", jstr text)]
     pure (obj [("sha1", jstr (MageModel.Invoke.Sha1.hexSum bytes)), ("len", jnat bytes.size)])
 
+/-- fe.accepts: is the package accepted by the ambiguity checks, and if not, with which report -/
+def acceptsOp (j : Json) : R Json := do
+  let p ← proj j
+  match primary (cfgOf p) (fun path => p.world.lookup path) p.main with
+  | .error e => pure (obj [("build", errJ e), ("status", jnat 1)])
+  | .ok _ => pure (obj [("accepted", jbool true)])
+
 def handle (op : String) (j : Json) : R Json :=
   match op with
+  | "fe.accepts" => acceptsOp j
   | "fe.gen" => genOp j
   | "fe.text" => textOp j
   | "fe.info" => info j
